@@ -197,3 +197,259 @@ Proof.
       assert (Hwf' : wf_st (mkst (c :: pre s) t (S (idx s)))) by (unfold wf_st in *; cbn; lia).
       destruct (IH _ _ _ Hwf' H) as (H1 & H2). cbn [idx] in H1. lia.
 Qed.
+
+(* ================================================================== *)
+(* Membership inversion: what a path through each constructor looks like *)
+
+Lemma in_ms_seq a b s g p :
+  In p (ms (Seq a b) s g) <-> exists q, In q (ms a s g) /\ In p (ms b (fst q) (snd q)).
+Proof. cbn [ms]. apply in_flat_map. Qed.
+
+Lemma in_ms_alt a b s g p : In p (ms (Alt a b) s g) <-> In p (ms a s g) \/ In p (ms b s g).
+Proof. cbn [ms]. apply in_app_iff. Qed.
+
+Lemma in_ms_grp i b s g p :
+  In p (ms (Grp i b) s g) <-> exists q, In q (ms b s g) /\ p = (fst q, setg (snd q) i (idx s, idx (fst q))).
+Proof.
+  cbn [ms]. rewrite in_map_iff. split; intros (q & H1 & H2); exists q.
+  - split; [exact H2 | symmetry; exact H1].
+  - split; [symmetry; exact H2 | exact H1].
+Qed.
+
+Lemma in_ms_chr cs s g p :
+  In p (ms (Chr cs) s g) <->
+  exists c t, rest s = c :: t /\ in_ranges c cs = true /\ p = (mkst (c :: pre s) t (S (idx s)), g).
+Proof.
+  cbn [ms]. split.
+  - destruct (rest s) as [|c t]; [intros []|]. destruct (in_ranges c cs) eqn:E; [|intros []].
+    intros [<-|[]]. exists c, t. repeat split; assumption.
+  - intros (c & t & -> & -> & ->). left. reflexivity.
+Qed.
+
+(* n successive passes through b *)
+Inductive chain (b : re) : nat -> st -> caps -> res -> Prop :=
+| chain0 s g : chain b 0 s g (s, g)
+| chainS n s g q p : In q (ms b s g) -> chain b n (fst q) (snd q) p -> chain b (S n) s g p.
+
+Definition rep_bound (mn : nat) (mx : option nat) (n : nat) : Prop :=
+  mn <= n /\ match mx with Some x => n <= Nat.max x mn | None => True end.
+
+Theorem in_ms_rep mn mx b s g p :
+  In p (ms (Rep mn mx b) s g) -> exists n, chain b n s g p /\ rep_bound mn mx n.
+Proof.
+  cbn [ms]. unfold rep_bound. intros Hin.
+  enough (E : exists n, chain b n s g p /\ mn <= 0 + n /\ match mx with Some x => 0 + n <= Nat.max x mn | None => True end) by exact E.
+  assert (H0 : match mx with Some x => 0 <= Nat.max x mn | None => True end) by (destruct mx; [lia | exact I]).
+  revert H0 Hin. generalize (rep_fuel mn s) as fuel.
+  generalize 0 as cnt. generalize (@None nat) as lastp. intros lastp cnt fuel. revert cnt lastp s g.
+  induction fuel as [|fuel IHf]; intros cnt lastp s g Hinv Hin; [destruct Hin|].
+  destruct (cnt <? mn) eqn:Ec.
+  - apply Nat.ltb_lt in Ec. apply in_flat_map in Hin. destruct Hin as (q & Hq & Hp).
+    destruct (IHf (S cnt) lastp (fst q) (snd q)) as (n & Hc & H1 & H2); [destruct mx; [lia | exact I] | exact Hp |].
+    exists (S n). split; [eapply chainS; eassumption|]. split; [lia|]. destruct mx; [lia | exact I].
+  - apply Nat.ltb_ge in Ec.
+    assert (Hstop : p = (s, g) -> exists n, chain b n s g p /\ mn <= cnt + n /\ match mx with Some x => cnt + n <= Nat.max x mn | None => True end).
+    { intros ->. exists 0. split; [constructor|]. split; [lia|]. destruct mx; [lia | exact I]. }
+    destruct (more mx cnt && notstuck lastp s) eqn:Em.
+    + apply in_app_or in Hin. destruct Hin as [Hin|[<-|[]]]; [|apply Hstop; reflexivity].
+      apply andb_true_iff in Em. destruct Em as [Em _].
+      apply in_flat_map in Hin. destruct Hin as (q & Hq & Hp).
+      destruct (IHf (S cnt) (Some (idx s)) (fst q) (snd q)) as (n & Hc & H1 & H2); [|exact Hp|].
+      { destruct mx as [x|]; [|exact I]. cbn in Em. apply Nat.ltb_lt in Em. lia. }
+      exists (S n). split; [eapply chainS; eassumption|]. split; [lia|]. destruct mx; [lia | exact I].
+    + destruct Hin as [<-|[]]. apply Hstop. reflexivity.
+Qed.
+
+(* a property of single passes that is reflexive and transitive holds along chains *)
+Lemma chain_lift (P : st -> caps -> res -> Prop) b :
+  (forall s g, P s g (s, g)) ->
+  (forall s g q p, In q (ms b s g) -> P (fst q) (snd q) p -> (forall s g x, In x (ms b s g) -> P s g x) -> P s g p) ->
+  (forall s g x, In x (ms b s g) -> P s g x) ->
+  forall n s g p, chain b n s g p -> P s g p.
+Proof.
+  intros Hr Ht Hb n s g p H. induction H as [s g|n s g q p Hq Hc IH]; [apply Hr|].
+  eapply Ht; eassumption.
+Qed.
+
+(* ---------------- captures: only the groups of r are written ---------------- *)
+Fixpoint groups_of (r : re) : list nat :=
+  match r with
+  | Grp i b => i :: groups_of b
+  | Seq a b | Alt a b => groups_of a ++ groups_of b
+  | Rep _ _ b | Ahead b | Behind _ b => groups_of b
+  | _ => []
+  end.
+
+Lemma setg_length g i v : length (setg g i v) = length g.
+Proof. revert i. induction g as [|h t IH]; intros [|i]; cbn; [reflexivity..|]. rewrite IH. reflexivity. Qed.
+
+Lemma nth_setg_same g i v : i < length g -> nth_error (setg g i v) i = Some (Some v).
+Proof. revert i. induction g as [|h t IH]; intros [|i] H; cbn in *; [lia | lia | reflexivity | apply IH; lia]. Qed.
+
+Lemma nth_setg_other g i j v : i <> j -> nth_error (setg g i v) j = nth_error g j.
+Proof.
+  revert i j. induction g as [|h t IH]; intros [|i] [|j] H; cbn; try reflexivity; [lia|]. apply IH. lia.
+Qed.
+
+Lemma getg_setg_same g i v : i < length g -> getg (setg g i v) i = Some v.
+Proof. intros H. unfold getg. rewrite nth_setg_same by exact H. reflexivity. Qed.
+
+Lemma getg_setg_other g i j v : i <> j -> getg (setg g i v) j = getg g j.
+Proof. intros H. unfold getg. rewrite nth_setg_other by exact H. reflexivity. Qed.
+
+Definition frame (r : re) (g : caps) (p : res) : Prop :=
+  length (snd p) = length g /\ forall j, ~ In j (groups_of r) -> nth_error (snd p) j = nth_error g j.
+
+Theorem ms_frame : forall r s g p, In p (ms r s g) -> frame r g p.
+Proof.
+  induction r as [|cs|a IHa b IHb|a IHa b IHb|mn mx b IHb|i b IHb|b IHb|w b IHb|ws| |]; intros s g p Hin.
+  - destruct Hin as [<-|[]]. split; reflexivity.
+  - apply in_ms_chr in Hin. destruct Hin as (c & t & _ & _ & ->). split; reflexivity.
+  - apply in_ms_seq in Hin. destruct Hin as (q & Hq & Hp).
+    destruct (IHa _ _ _ Hq) as [L1 F1]. destruct (IHb _ _ _ Hp) as [L2 F2]. split; [congruence|].
+    intros j Hj. cbn [groups_of] in Hj. rewrite F2, F1; [reflexivity | |]; intros C; apply Hj, in_or_app; auto.
+  - apply in_ms_alt in Hin. cbn [groups_of].
+    destruct Hin as [H|H]; [destruct (IHa _ _ _ H) as [L F] | destruct (IHb _ _ _ H) as [L F]];
+      (split; [exact L|]; intros j Hj; apply F; intros C; apply Hj, in_or_app; auto).
+  - apply in_ms_rep in Hin. destruct Hin as (n & Hc & _). unfold frame. cbn [groups_of].
+    induction Hc as [s g|n s g q p Hq Hc IH]; [split; reflexivity|].
+    destruct (IHb _ _ _ Hq) as [L1 F1]. destruct IH as [L2 F2]. split; [congruence|].
+    intros j Hj. rewrite F2, F1; [reflexivity | exact Hj | exact Hj].
+  - apply in_ms_grp in Hin. destruct Hin as (q & Hq & ->). destruct (IHb _ _ _ Hq) as [L F]. unfold frame. cbn [snd fst groups_of].
+    split; [rewrite setg_length; exact L|]. intros j Hj. rewrite nth_setg_other; [apply F; intros C; apply Hj; right; exact C|].
+    intros ->. apply Hj. left. reflexivity.
+  - cbn [ms] in Hin. destruct (ms b s g) as [|x t] eqn:E; [destruct Hin|]. destruct Hin as [<-|[]].
+    apply (IHb s g x). rewrite E. left. reflexivity.
+  - cbn [ms] in Hin. destruct (back w s) as [s0|]; [|destruct Hin].
+    destruct (ms b s0 g) as [|x t] eqn:E; [destruct Hin|]. destruct Hin as [<-|[]].
+    apply (IHb s0 g x). rewrite E. left. reflexivity.
+  - cbn [ms] in Hin. destruct (at_bnd ws s); [|destruct Hin]. destruct Hin as [<-|[]]. split; reflexivity.
+  - cbn [ms] in Hin. destruct (at_eos s); [|destruct Hin]. destruct Hin as [<-|[]]. split; reflexivity.
+  - cbn [ms] in Hin. destruct (idx s); [|destruct Hin]. destruct Hin as [<-|[]]. split; reflexivity.
+Qed.
+
+(* ---------------- spans are slices of the text ---------------- *)
+Lemma slice_extends s s' :
+  wf_st s -> extends s s' ->
+  exists mid, rest s = mid ++ rest s' /\ slice (text_of s) (idx s) (idx s') = mid /\ idx s' = idx s + length mid.
+Proof.
+  intros Hwf (mid & P & R & I). exists mid. split; [exact R|]. split; [|exact I].
+  unfold slice, text_of. rewrite R, I. unfold wf_st in Hwf. rewrite Hwf.
+  replace (length (pre s) + length mid - length (pre s)) with (length mid) by lia.
+  rewrite <- (rev_length (pre s)), skipn_app, skipn_all, Nat.sub_diag. cbn [skipn app].
+  rewrite firstn_app, firstn_all, Nat.sub_diag. cbn [firstn]. apply app_nil_r.
+Qed.
+
+(* ================================================================== *)
+(* Character-class abstraction: the matcher sees a text only through the membership of its
+   characters in the sets that occur in the pattern (and through "is it a newline" for $).
+   Two texts that agree on those give the same paths, the same spans and the same captures. *)
+Fixpoint csets (r : re) : list (list (N * N)) :=
+  match r with
+  | Chr cs => [cs]
+  | Bnd ws => [ws]
+  | Seq a b | Alt a b => csets a ++ csets b
+  | Rep _ _ b | Grp _ b | Ahead b | Behind _ b => csets b
+  | _ => []
+  end.
+
+Definition ceq (CS : list (list (N * N))) (c1 c2 : N) : Prop :=
+  (forall cs, In cs CS -> in_ranges c1 cs = in_ranges c2 cs) /\ (c1 =? 10)%N = (c2 =? 10)%N.
+
+Definition seqv CS (s1 s2 : st) : Prop :=
+  Forall2 (ceq CS) (pre s1) (pre s2) /\ Forall2 (ceq CS) (rest s1) (rest s2) /\ idx s1 = idx s2.
+
+Definition reqv CS (x y : res) : Prop := seqv CS (fst x) (fst y) /\ snd x = snd y.
+
+Lemma Forall2_flat_map {A B C D} (R : A -> B -> Prop) (Q : C -> D -> Prop) f h l1 l2 :
+  Forall2 R l1 l2 -> (forall x y, R x y -> Forall2 Q (f x) (h y)) -> Forall2 Q (flat_map f l1) (flat_map h l2).
+Proof.
+  intros H Hf. induction H as [|x y l1 l2 Hxy _ IH]; cbn; [constructor|]. apply Forall2_app; [apply Hf; exact Hxy | exact IH].
+Qed.
+
+Lemma Forall2_map2 {A B C D} (R : A -> B -> Prop) (Q : C -> D -> Prop) f h l1 l2 :
+  Forall2 R l1 l2 -> (forall x y, R x y -> Q (f x) (h y)) -> Forall2 Q (map f l1) (map h l2).
+Proof. intros H Hf. induction H; cbn; constructor; auto. Qed.
+
+Lemma F2_length {A B} (R : A -> B -> Prop) l1 l2 : Forall2 R l1 l2 -> length l1 = length l2.
+Proof. intros H. induction H; cbn; congruence. Qed.
+
+Lemma seqv_refl_res CS s1 s2 g : seqv CS s1 s2 -> Forall2 (reqv CS) [(s1, g)] [(s2, g)].
+Proof. intros H. constructor; [split; [exact H | reflexivity] | constructor]. Qed.
+
+Lemma isword_hd CS ws l1 l2 : In ws CS -> Forall2 (ceq CS) l1 l2 -> isword ws (hd_error l1) = isword ws (hd_error l2).
+Proof. intros Hin H. destruct H as [|c1 c2 t1 t2 [Hc _] _]; cbn; [reflexivity | apply Hc; exact Hin]. Qed.
+
+Lemma back_equiv CS : forall w s1 s2, seqv CS s1 s2 ->
+  match back w s1, back w s2 with
+  | Some a, Some b => seqv CS a b
+  | None, None => True
+  | _, _ => False
+  end.
+Proof.
+  induction w as [|w IH]; intros s1 s2 H; cbn [back]; [exact H|].
+  destruct H as (Hp & Hr & Hi). destruct Hp as [|c1 c2 p1 p2 Hc Hp]; [exact I|].
+  apply IH. unfold seqv. cbn [pre rest idx]. repeat split; [exact Hp | constructor; assumption | rewrite Hi; reflexivity].
+Qed.
+
+Theorem ms_equiv : forall r CS s1 s2 g, incl (csets r) CS -> seqv CS s1 s2 -> Forall2 (reqv CS) (ms r s1 g) (ms r s2 g).
+Proof.
+  induction r as [|cs|a IHa b IHb|a IHa b IHb|mn mx b IHb|i b IHb|b IHb|w b IHb|ws| |]; intros CS s1 s2 g Hinc Hs; cbn [ms].
+  - apply seqv_refl_res. exact Hs.
+  - destruct Hs as (Hp & Hr & Hi). destruct Hr as [|c1 c2 t1 t2 Hc Hr]; [constructor|].
+    destruct Hc as [Hc Hn]. rewrite (Hc cs) by (apply Hinc; left; reflexivity).
+    destruct (in_ranges c2 cs); [|constructor]. apply seqv_refl_res. repeat split; cbn [pre rest idx]; [constructor; [split; assumption | exact Hp] | exact Hr | f_equal; exact Hi].
+  - cbn [csets] in Hinc. eapply Forall2_flat_map; [apply IHa; [intros x Hx; apply Hinc, in_or_app; auto | exact Hs]|].
+    intros x y [Hxy ->]. apply IHb; [intros z Hz; apply Hinc, in_or_app; auto | exact Hxy].
+  - cbn [csets] in Hinc. apply Forall2_app; [apply IHa | apply IHb]; try exact Hs; intros z Hz; apply Hinc, in_or_app; auto.
+  - cbn [csets] in Hinc.
+    assert (Hf : rep_fuel mn s1 = rep_fuel mn s2).
+    { unfold rep_fuel. destruct Hs as (_ & Hr & _). rewrite (F2_length _ _ _ Hr). reflexivity. }
+    rewrite Hf. clear Hf. generalize (rep_fuel mn s2) as fuel. generalize 0 as cnt. generalize (@None nat) as lastp.
+    intros lastp cnt fuel. revert cnt lastp s1 s2 g Hs.
+    induction fuel as [|fuel IHf]; intros cnt lastp s1 s2 g Hs; [constructor|].
+    assert (Hi : idx s1 = idx s2) by (destruct Hs as (_ & _ & Hi); exact Hi).
+    destruct (cnt <? mn).
+    + eapply Forall2_flat_map; [apply IHb; [exact Hinc | exact Hs]|]. intros x y [Hxy ->]. apply IHf. exact Hxy.
+    + replace (notstuck lastp s1) with (notstuck lastp s2) by (unfold notstuck; rewrite Hi; reflexivity).
+      destruct (more mx cnt && notstuck lastp s2); [|apply seqv_refl_res; exact Hs].
+      apply Forall2_app; [|apply seqv_refl_res; exact Hs].
+      eapply Forall2_flat_map; [apply IHb; [exact Hinc | exact Hs]|]. intros x y [Hxy ->]. rewrite Hi. apply IHf. exact Hxy.
+  - cbn [csets] in Hinc. eapply Forall2_map2; [apply IHb; [exact Hinc | exact Hs]|].
+    intros x y [Hxy E]. split; cbn [fst snd]; [exact Hxy|]. rewrite E.
+    destruct Hs as (_ & _ & ->). destruct Hxy as (_ & _ & ->). reflexivity.
+  - cbn [csets] in Hinc. pose proof (IHb CS s1 s2 g Hinc Hs) as H.
+    destruct H as [|x y l1 l2 [_ E] _]; [constructor|]. rewrite E. apply seqv_refl_res. exact Hs.
+  - cbn [csets] in Hinc. pose proof (back_equiv CS w s1 s2 Hs) as Hb.
+    destruct (back w s1) as [a1|], (back w s2) as [a2|]; try contradiction; [|constructor].
+    pose proof (IHb CS a1 a2 g Hinc Hb) as H.
+    destruct H as [|x y l1 l2 [_ E] _]; [constructor|]. rewrite E. apply seqv_refl_res. exact Hs.
+  - assert (E : at_bnd ws s1 = at_bnd ws s2).
+    { unfold at_bnd. destruct Hs as (Hp & Hr & _).
+      rewrite (isword_hd CS ws _ _ (Hinc _ (or_introl eq_refl)) Hp), (isword_hd CS ws _ _ (Hinc _ (or_introl eq_refl)) Hr). reflexivity. }
+    rewrite E. destruct (at_bnd ws s2); [apply seqv_refl_res; exact Hs | constructor].
+  - assert (E : at_eos s1 = at_eos s2).
+    { unfold at_eos. destruct Hs as (_ & Hr & _). destruct Hr as [|c1 c2 t1 t2 [_ Hn] Hr]; [reflexivity|].
+      destruct Hr; [exact Hn | reflexivity]. }
+    rewrite E. destruct (at_eos s2); [apply seqv_refl_res; exact Hs | constructor].
+  - assert (Hi : idx s1 = idx s2) by (destruct Hs as (_ & _ & Hi); exact Hi). rewrite Hi. destruct (idx s2); [apply seqv_refl_res; exact Hs | constructor].
+Qed.
+
+(* fullmatch sees only the classes *)
+Lemma st_at_full t : st_at t 0 (length t) = mkst [] t 0.
+Proof. unfold st_at. rewrite firstn_all. reflexivity. Qed.
+
+Theorem fullmatch_equiv r ng t1 t2 :
+  Forall2 (ceq (csets r)) t1 t2 -> fullmatch r ng t1 = fullmatch r ng t2.
+Proof.
+  intros H. unfold fullmatch. rewrite !m_spec, !st_at_full.
+  assert (Hs : seqv (csets r) (mkst [] t1 0) (mkst [] t2 0)) by (repeat split; [constructor | exact H]).
+  pose proof (ms_equiv r (csets r) _ _ (init_caps ng) (incl_refl _) Hs) as HF.
+  induction HF as [|x y l1 l2 [Hxy E] _ IH]; cbn [first_some]; [reflexivity|].
+  destruct Hxy as (_ & Hr & Hi).
+  destruct Hr as [|c1 c2 r1 r2 _ _].
+  - rewrite <- H0, <- H1 || idtac. destruct x as [sx gx], y as [sy gy]; cbn [fst snd] in *. subst gy.
+    destruct (rest sx) eqn:E1, (rest sy) eqn:E2; try discriminate; cbn; rewrite ?Hi; try reflexivity; exact IH.
+  - destruct x as [sx gx], y as [sy gy]; cbn [fst snd] in *.
+    destruct (rest sx) eqn:E1, (rest sy) eqn:E2; try discriminate; exact IH.
+Qed.
